@@ -40,7 +40,16 @@ def partIndexFile : Bytes := ofHex
 def partDiv0File : Bytes := ofHex
   "0000000001000000000000000000000000000000000000000000000001000000010000000100000001000000"
 
+/-- 4 vertices, one tet present, 2^31-1 tets declared -/
+def countIntFile : Bytes := ofHex
+  "040000000000000000000000ffffff7f000000000000000000000000000000000000000000000000000000000000000000000000000000000000f03f000000000000000000000000000000000000000000000000000000000000f03f000000000000000000000000000000000000000000000000000000000000f03f01000000020000000300000004000000"
+
+/-- `.lb8l.ugrid` declaring 2^63-1 vertices (184 bytes) -/
+def countLongFile : Bytes := ofHex
+  "ffffffffffffff7f000000000000000000000000000000000100000000000000000000000000000000000000000000000000000000000000000000000000000000000000000000000000000000000000000000000000f03f000000000000000000000000000000000000000000000000000000000000f03f000000000000000000000000000000000000000000000000000000000000f03f0100000000000000020000000000000003000000000000000400000000000000"
+
 def lb8 : Flavor := ⟨false, false⟩
+def lb8l : Flavor := ⟨false, true⟩
 
 /-! ### totality -/
 
@@ -95,6 +104,15 @@ theorem accepted_indices_in_range_counterexample_replay :
 theorem part_index_unchecked_counterexample :
     PartMacros.ref_part_implicit 4 1 4 = 1 ∧ partRead lb8 1 none partIndexFile = .error .undefined ∧
     PartMacros.ref_part_large_part_size 0 1 = 0 ∧ partRead lb8 1 none partDiv0File = .error .undefined := by
+  decide +kernel
+
+/-- FAITHFUL parallel reader: the declared counts enter `int` / `long` arithmetic before any byte of the sections is
+    looked at — `size_per * chunk` with `chunk = MAX(1000000, ncell / nproc)` overflows `int` for 2^31-1 declared tets;
+    `ref_part_first(nnode, nproc, 1)` forms `nnode + nproc` in `long` for 2^63-1 declared vertices.  The serial reader
+    returns `REF_FAILURE` on the first of these files (short read) -/
+theorem part_count_overflow_counterexample :
+    partRead lb8 1 none countIntFile = .error .undefined ∧ partRead lb8l 1 none countLongFile = .error .undefined ∧
+    decodeUgrid lb8 countIntFile = .error .failure := by
   decide +kernel
 
 /-- FIXED serial reader (`1 ≤ index ≤ nnode` per connectivity entry): every node index of every accepted cell is in
